@@ -75,7 +75,7 @@ func (x *Run) callValue(fr *Frame, st *State, fv Val, cc *ssa.CallCommon, args [
 			return outs
 		}
 	}
-	if fv.Clo == nil {
+	if fv.Clo == nil || x.spec.dynCallOverrides(site) {
 		if sf := x.spec.dynCallSpec(site); sf != nil {
 			st.events = append(st.events, Event{Name: "call:dyncall:" + x.fnShort(sf), Args: args})
 			return x.runFunc(sf, args, nil, st, fr, ModeNormal)
@@ -195,6 +195,9 @@ func (x *Run) callFunc(fr *Frame, st *State, fn *ssa.Function, args []Val, bindi
 			return x.runFrame(f, args, bindings, st)
 		}
 		return x.useSelfCall(fr, st, fn, args, site)
+	}
+	if len(st.held) > 0 && strings.HasPrefix(pkgPathOf(fn), frpPrefix) {
+		x.noteCallUnderLock(fr, st, fn, site)
 	}
 	// --- "hold the lock before calling this function" ---
 	if x.spec.lockHeld != nil && !fr.inPure() && !x.isVerifPkg(fn) {
